@@ -1105,3 +1105,16 @@ Print Assumptions gen_q_remove_nonempty.
 Print Assumptions gen_q_edit_invariant.
 Print Assumptions gen_q_history_invariant.
 Print Assumptions gen_q_history_sees_all_ones.
+
+(* replace(v, v_new) exchanges one vertex and leaves the shape alone, so it keeps the invariant too *)
+Theorem gen_q_replace_good legs v v' legs' : GoodLegs legs -> py_Q_replace legs v v' = FRet legs' -> GoodLegs legs' /\ lens legs' = lens legs.
+Proof.
+  intros [Hne [HN HS]] H. destruct (gen_q_replace_accounts legs v v' legs' H) as [A [pre [post [B [-> [-> _]]]]]].
+  assert (HL : lens (A ++ (pre ++ v' :: post) :: B) = lens (A ++ (pre ++ v :: post) :: B)).
+  { unfold lens. rewrite !map_app. cbn [map]. rewrite !app_length. reflexivity. }
+  split; [|exact HL]. split; [destruct A; discriminate|]. split.
+  - rewrite Forall_app in *. destruct HN as [HA HB]. split; [exact HA|]. inversion HB; subst. constructor; [destruct pre; discriminate|assumption].
+  - unfold SortedLegs in *. replace (lens (tl (A ++ (pre ++ v' :: post) :: B))) with (tl (lens (A ++ (pre ++ v' :: post) :: B))) by (destruct A; reflexivity).
+    rewrite HL. replace (tl (lens (A ++ (pre ++ v :: post) :: B))) with (lens (tl (A ++ (pre ++ v :: post) :: B))) by (destruct A; reflexivity). exact HS.
+Qed.
+Print Assumptions gen_q_replace_good.
